@@ -334,7 +334,7 @@ func boolToInt(b bool) int64 {
 
 func TestCheck(t *testing.T) {
 	r := h.New("C16", "exploration")
-	r.Rule("windows 1-10 x streams of 1..20 x window messages x QoS mixes x acknowledgement policy {immediate, batched 1..window, reversed order, QoS 2 half-way (PUBREC at once, PUBCOMP withheld until the window is full), drop+resume in between}; the scripted subscriber counts messages received at QoS>0 and not yet finally acknowledged by itself (never above the window, retransmissions included), must receive the whole stream and a final marker while it acknowledges, and at quiescence the free dequeue tokens must equal window-1 (idle dequeuer holds one). Non-trivial = streams longer than the window with >= 1 QoS>0 message; distinct by policy")
+	r.Rule("windows 1-10 x streams of 1..20 x window messages x QoS mixes x acknowledgement policy {immediate, batched 1..window, reversed order, QoS 2 half-way (PUBREC at once, PUBCOMP withheld until the window is full), drop+resume in between, incl. resumptions that find the whole window in the PUBREL stage}; the scripted subscriber counts messages received at QoS>0 and not yet finally acknowledged by itself (never above the window, retransmissions included), must receive the whole stream and a final marker while it acknowledges, and at quiescence the free dequeue tokens must equal window-1 (idle dequeuer holds one). Non-trivial = streams longer than the window with >= 1 QoS>0 message; distinct by policy")
 	r.Assume("only acknowledgements for packets actually received are sent; the subscriber releases withheld acknowledgements when its window is full (otherwise nothing more can arrive)")
 	rng := r.Rand("c16")
 	n := r.Pick(1200, 20000)
@@ -354,6 +354,14 @@ func TestCheck(t *testing.T) {
 			p.Reconnect = 1 + rng.Intn(p.N)
 		}
 		pols = append(pols, p)
+	}
+	// resumptions that find the whole window in the PUBREL stage (PUBREC sent,
+	// PUBCOMP withheld), for every small window: the retransmitted PUBRELs hold
+	// their slots
+	for w := 1; w <= 5; w++ {
+		for _, at := range []int{w, w + 1, 2 * w} {
+			pols = append(pols, policy{Window: w, N: 4*w + 2, QoSMix: "2", Batch: w, HalfQ2: true, Reconnect: at})
+		}
 	}
 	// long-idle connections with a short token timeout, then window saturation
 	for i := 0; i < r.Pick(12, 120); i++ {
